@@ -731,10 +731,24 @@ def _emit_family_impl(draw, S, fam, allow_set_broadcast=True, allow_ndim_dot=Fal
     poly = getattr(S, 'poly', False)
     real = _real(S)
     if fam in ('un', 'special'):
-        a = _pick(draw, S, real)
-        if a is None:
-            return False
         name = draw(st.sampled_from(['square', 'negative', 'square'] if poly else (UN_CHEAP if fam == 'un' else UN_SPECIAL)))
+        # an operand inside the function's domain at every probe point; if no register qualifies one is constructed
+        # (0.5 + r^2 >= 0.5 for log / sqrt / reciprocal / gammaln / psi, sin(r) in [-1, 1] for tan / erf / ..., 0.5 + 0.3 sin(r) for logit) -
+        # otherwise the functions with a restricted domain would hardly ever be emitted on raw inputs
+        a = _pick(draw, S, lambda q: real(q) and all(precond(['un', name, q], S.regs[k]) for k in range(S.K)))
+        if a is None:
+            r = _pick(draw, S, real)
+            if r is None:
+                return False
+            if name in ('log', 'sqrt', 'reciprocal', 'gammaln', 'psi', 'log1p'):
+                ok = S.try_emit(['un', 'square', r]) and S.try_emit(['binc', 'add', S.nreg() - 1, 0.5, 'r'])
+            elif name == 'logit':
+                ok = S.try_emit(['un', 'sin', r]) and S.try_emit(['binc', 'mul', S.nreg() - 1, 0.3, 'r']) and S.try_emit(['binc', 'add', S.nreg() - 1, 0.5, 'r'])
+            else:
+                ok = S.try_emit(['un', 'sin', r])
+            if not ok:
+                return False
+            a = S.nreg() - 1
         return S.try_emit(['un', name, a])
     if fam == 'kink':
         # absolute / sign / clip away from their kinks; operands whose sign differs between probe points are preferred
